@@ -208,15 +208,23 @@ type tlsRun struct {
 	pass     bool
 	stallers []*holdConn
 	garbage  []byte
+	sessions map[string]tls.ClientSessionCache // per credential: a second connection resumes the first one's TLS session
 }
 
 func (tr *tlsRun) clientCfg(cred string) *tls.Config {
-	return &tls.Config{RootCAs: tr.p.rootPool, ServerName: "localhost", Certificates: tr.p.clients[cred], MinVersion: tls.VersionTLS12}
+	if tr.sessions == nil {
+		tr.sessions = map[string]tls.ClientSessionCache{}
+	}
+	if tr.sessions[cred] == nil {
+		tr.sessions[cred] = tls.NewLRUClientSessionCache(4)
+	}
+	return &tls.Config{RootCAs: tr.p.rootPool, ServerName: "localhost", Certificates: tr.p.clients[cred], MinVersion: tls.VersionTLS12,
+		ClientSessionCache: tr.sessions[cred]}
 }
 
 // client runs one client against the TLS port and records what happened.
 func (tr *tlsRun) client(cred, fault string) net.Conn {
-	ev := Ev{"ev": "tlsclient", "cred": cred, "fault": fault, "hs": false, "calls": 0, "served": false, "disconnected": false}
+	ev := Ev{"ev": "tlsclient", "cred": cred, "fault": fault, "hs": false, "calls": 0, "served": false, "disconnected": false, "preauth_calls": 0, "resumed": false}
 	raw, err := net.DialTimeout("tcp", fmt.Sprintf("127.0.0.1:%d", tr.tlsp), 500*time.Millisecond)
 	if err != nil {
 		ev["disconnected"] = true
@@ -227,6 +235,20 @@ func (tr *tlsRun) client(cred, fault string) net.Conn {
 	local := raw.LocalAddr().String()
 	var keep net.Conn
 	switch {
+	case fault == "flood":
+		// hundreds of clients that connect to the TLS port and say nothing, all at once, then go away
+		conns := []net.Conn{raw}
+		for i := 0; i < 300; i++ {
+			if c, err := net.DialTimeout("tcp", fmt.Sprintf("127.0.0.1:%d", tr.tlsp), 500*time.Millisecond); err == nil {
+				conns = append(conns, c)
+			}
+		}
+		time.Sleep(300 * time.Millisecond)
+		for _, c := range conns {
+			c.Close()
+		}
+		time.Sleep(50 * time.Millisecond)
+		ev["disconnected"] = true
 	case cred == "plain":
 		payload := request("PING")
 		if fault == "garbage" || (fault == "stall" && tr.garbage != nil) {
@@ -265,7 +287,16 @@ func (tr *tlsRun) client(cred, fault string) net.Conn {
 		raw.SetDeadline(time.Now().Add(1500 * time.Millisecond))
 		if err := tc.Handshake(); err == nil {
 			ev["hs"] = true
+			ev["resumed"] = tc.ConnectionState().DidResume
 			raw.SetDeadline(time.Time{})
+			if tr.pass {
+				// a command before AUTH: the TLS connection is not authorized by its certificate alone (C08)
+				tc.SetDeadline(time.Now().Add(800 * time.Millisecond))
+				tc.Write(request("GET", "preauth-key"))
+				bufio.NewReader(tc).ReadString('\n')
+				time.Sleep(2 * time.Millisecond)
+				ev["preauth_calls"] = tr.h.count(local)
+			}
 			served, disc := talk(tc, tr.pass)
 			ev["served"], ev["disconnected"] = served, disc
 			if served {
@@ -377,6 +408,12 @@ func runTLS(rec *Recorder, p *pki, id int, s TLSScenario) {
 		tr.client(s.Cred, "stall")
 	} else {
 		bad = tr.client(s.Cred, s.Fault)
+		if s.Fault == "none" && len(p.clients[s.Cred]) > 0 {
+			// the same client again: this time its TLS session is resumed (no certificate is sent), the verdict must be the same
+			if again := tr.client(s.Cred, s.Fault); again != nil {
+				again.Close()
+			}
+		}
 	}
 	tr.probe("after-client")
 	if witness != nil { // the earlier client is still served
